@@ -493,18 +493,43 @@ def all_schedules(case, limit=400):
 FINAL_CODES = (2, 3, 4, 6)
 
 
-def check_dep_order(events, real_deps, flavour):
+def declared_deps(case, events):
+    """effective dependencies computed from the generated case itself (independent of what TaskControl /
+    the dispatcher made of it): task_dep, setup, calc_dep, file_dep on another task's target, getargs
+    sources, and -- for every calc_dep task that ended successful / up-to-date in this run -- the tasks its
+    saved values name (task_dep, producers of file_dep, further calc_dep), transitively"""
+    good = set(e[1] for e in events if e[0] in (3, 6) and len(e) > 1)
+    tasks = case['tasks']
+    out = {}
+    for t, row in enumerate(tasks):
+        deps = set(row['task_dep']) | set(row['setup']) | set(row['file_edge']) | set(row.get('getargs', []))
+        calcs, todo = set(), list(row['calc_dep'])
+        while todo:
+            c = todo.pop()
+            if c in calcs or c >= len(tasks):
+                continue
+            calcs.add(c)
+            if c in good:
+                deps |= set(tasks[c]['calc_task']) | set(tasks[c]['calc_file'])
+                todo += list(tasks[c]['calc_calc'])
+        out[t] = sorted(x for x in deps | calcs if x < len(tasks))
+    return out
+
+
+def check_dep_order(events, real_deps, flavour, case=None):
     """C01: a task's actions start only after every task it depends on got its final report.
-    start = [20,t,w] under the parallel runners (the action itself), [5,t] in the serial runner."""
+    start = [20,t,w] under the parallel runners (the action itself), [5,t] in the serial runner.
+    Dependencies: what the real Task objects hold after the run, united with the declared ones (declared_deps)."""
     finished, bad = set(), []
     start_code = 5 if flavour == 'serial' else 20
     running = {}
+    decl = declared_deps(case, events) if case is not None else {}
     for ev in events:
         if ev[0] in FINAL_CODES:
             finished.add(ev[1])
         if ev[0] == start_code:
             t = ev[1]
-            missing = [d for d in real_deps.get(t, []) if d not in finished]
+            missing = [d for d in sorted(set(real_deps.get(t, [])) | set(decl.get(t, []))) if d not in finished]
             if missing:
                 bad.append(dict(task=t, unfinished_deps=missing))
             running[t] = True
